@@ -188,23 +188,26 @@ def step (root : List Char) (fs : FS) : Op → FS × Ret
     match relPath n with
     | none => (fs, .error .unmodelled)
     | some p =>
-      match fs.kind p, fs.get p with
-      | .file, some d => (fs, .bytes d)
-      | .dir, _ => (fs, .error .osError)
-      | _, _ => (fs, .error (if fs.blocked p then .osError else .notFound))
+      (fs, match fs.kind p with
+        | .file => (match fs.get p with | some d => .bytes d | none => .error .notFound)
+        | .dir => .error .osError
+        | .none => .error (if fs.blocked p then .osError else .notFound))
   | .downloadStream n c sink =>
     match relPath n with
     | none => (fs, .error .unmodelled)
     | some p =>
-      match fs.kind p, fs.get p with
-      | .file, some d => (fs, .bytes (sinkAfter sink c d))
-      | .dir, _ => (fs, .error .osError)
-      | _, _ => (fs, .error (if fs.blocked p then .osError else .notFound))
+      (fs, match fs.kind p with
+        | .file => (match fs.get p with | some d => .bytes (sinkAfter sink c d) | none => .error .notFound)
+        | .dir => .error .osError
+        | .none => .error (if fs.blocked p then .osError else .notFound))
 
-/-- abstraction: the object map a directory tree denotes -/
-def FS.abs (fs : FS) : Spec := fun n =>
-  match relPath n with
-  | some p => if fs.kind p = .file then fs.get p else none
-  | none => none
+/-- a path segment of an object name: non-empty, no `/`, not `.` or `..` -/
+def validSeg (s : Seg) : Bool := s ≠ [] ∧ '/' ∉ s ∧ s ≠ dot ∧ s ≠ dotdot
+def validPath (p : Path) : Bool := p ≠ [] ∧ p.all validSeg
+/-- object names in canonical form (the name universe of the property) -/
+def validName (n : Name) : Bool := validPath (splitSlash n)
+
+/-- abstraction: the object map a directory tree denotes (objects are addressed by canonical names) -/
+def FS.abs (fs : FS) : Spec := fun n => if validName n then fs.get (splitSlash n) else none
 
 end Replicat.LocalFS
